@@ -130,6 +130,15 @@ pub fn check_frame(c: &FrameCase) -> CaseResult {
                 u16::from_be_bytes([buf[5], buf[6]]),
                 buf.len() - 7
             );
+        } else {
+            // a refused frame emits nothing: whatever is written into the same buffer next must not
+            // find the beginning of a header in front of it
+            ensure!(buf.is_empty(), "C03.len", "encode refused a {}-byte payload but left {} bytes in the output buffer ({:02x?})", c.len, buf.len(), &buf[..buf.len().min(8)]);
+            let prefix = [0xEEu8, 0xDD];
+            let mut buf2 = BytesMut::from(&prefix[..]);
+            let _ = codec.encode(frame.clone(), &mut buf2);
+            ensure!(buf2[..] == prefix[..], "C03.len", "encode refused a {}-byte payload but appended {} bytes to a buffer that held 2", c.len, buf2.len() - 2);
+            out.class("refused-frame-emits-nothing");
         }
     }
     Ok(out)
